@@ -32,6 +32,18 @@ def c01(run, tier):
         run.trace_validate(["-fam", "paths", "-n", str(Q(tier, 2500, 20000)), "-sub", str(i)], "paths%d" % i)
 
 
+def scale_family(run, fam, label):
+    """Trace_Scale.tla: regular documents far larger / deeper than TLC enumerates (sizes around powers of two); the trace
+    specification knows the value of every query of the pool as a closed form in the size"""
+    import os
+    t = os.path.join(run.work, "scale.%s.ndjson" % fam)
+    p = run.harness_cmd(["scale-record", "-fam", fam, "-out", t], "scale-" + fam, timeout=1800)
+    if p.returncode != 0:
+        from infra import Infra
+        raise Infra("scale-record failed: " + (p.stdout + p.stderr)[-800:])
+    run.judge_trace(t, "Trace_Scale", label, "scale." + fam, workers=1, timeout=1800)
+
+
 def fixed_two_steps(run, aspects):
     """MC_Fixed: every pair of axes from every node of one larger hand-written document (elements with two attributes and two
     namespace nodes, nested): the law 'a two-step path is the union over the first step' is checked by TLC, the cases are replayed"""
@@ -72,6 +84,7 @@ def c03(run, tier):
     rep = run.tlc_gen_replay("MC_C01", cfg, "two-steps", timeout=Q(tier, 400, 2400))
     run.absorb(rep, ORDER_ASPECTS)
     fixed_two_steps(run, ORDER_ASPECTS)
+    scale_family(run, "docs", "large-documents")
 
 
 def c18(run, tier):
@@ -100,6 +113,7 @@ def c04(run, tier):
     rep = run.tlc_gen_replay("MC_C01", cfg, "nodes", timeout=Q(tier, 300, 1800))
     run.absorb(rep, VALUE_ASPECTS)
     fixed_two_steps(run, VALUE_ASPECTS)   # incl. the string-values of a document nested 18 levels deep (family C04.deep)
+    scale_family(run, "deepxml", "deep-string-values")   # ... and of documents nested up to 1000 levels deep
     values_traces(run, tier)
 
 
@@ -208,6 +222,8 @@ def c13(run, tier):
     cfg = run.cfg("MC_Values.cfg", {"Family": '"C07u"'}, "gen.literals.cfg")
     rep = run.tlc_gen_replay("MC_Values", cfg, "literal-history", timeout=Q(tier, 600, 3000), harness_args=["-workers", "1"])
     run.absorb(rep, VALUE_ASPECTS)
+    # repeats agree also on documents of tens of thousands of nodes (every query of the scale pool is evaluated twice)
+    scale_family(run, "docs", "large-documents")
 
 
 def session_replay(run, path):
@@ -267,6 +283,10 @@ def c14(run, tier):
             cfg = run.cfg("MC_Values.cfg", {"Family": '"%s"' % fam}, "conc.%s.cfg" % fam)
             rep = run.tlc_gen_replay("MC_Values", cfg, "conc-" + fam, timeout=Q(tier, 600, 3000), harness_args=["-workers", "2"])
             run.absorb(rep, VALUE_ASPECTS)
+        # ... lang() over small documents carrying xml:lang in several spellings (many different tags are folded at once)
+        cfg = run.cfg("MC_Lang.cfg", {"MaxNodes": 4}, "conc.lang.cfg")
+        rep = run.tlc_gen_replay("MC_Names", cfg, "conc-lang", timeout=900, harness_args=["-workers", "4"])
+        run.absorb(rep, VALUE_ASPECTS)
         # ... and the axes: every pair of axes from a node of the fixed 31-node document, the ~470 cases of a line evaluated at once
         # on a tree that was built just before - no serial warm-up, so lazily built shared state is first touched concurrently
         rep = run.tlc_gen_replay("MC_Fixed", run.cfg("MC_Fixed.cfg", {}, "conc.fixed.cfg"), "conc-axes", timeout=900, harness_args=["-workers", "2"])
@@ -489,6 +509,8 @@ def c16(run, tier):
     record_and_judge(run, "json-record", ["-n", str(Q(tier, 800, 8000))], "json-random", "C16.trace", ADAPTER_ASPECTS)
     # the same with 8 goroutines reading (different) texts at once: every tree must still be its own text's mapping
     record_and_judge(run, "json-record", ["-n", str(Q(tier, 600, 6000)), "-sub", "7"], "json-concurrent", "C16.trace", ADAPTER_ASPECTS, conc=8)
+    # nesting far deeper than the model's bound (1 .. 1000 arrays around one number, with a member after the deep one)
+    scale_family(run, "deepjson", "deep-nesting")
 
 
 def c17(run, tier):
